@@ -9,6 +9,8 @@ pub struct Peer {
     pub sock: UdpSocket,
     pub id: [u8; 20],
     pub addr: SocketAddrV4,
+    /// a peer that does not announce support for signed peers (sends no version)
+    pub legacy: bool,
 }
 
 impl Peer {
@@ -19,7 +21,7 @@ impl Peer {
             SocketAddr::V4(a) => a,
             _ => unreachable!(),
         };
-        Peer { sock, id, addr }
+        Peer { sock, id, addr, legacy: false }
     }
     pub fn node(&self) -> Node {
         Node::new(Id::from(self.id), self.addr)
@@ -41,7 +43,7 @@ impl Peer {
         let _ = self.sock.send_to(bytes, to);
     }
     pub fn send(&self, to: SocketAddrV4, tid: u32, mt: MessageType, read_only: bool, requester_ip: Option<SocketAddrV4>) {
-        let m = VMessage { transaction_id: tid, version: Some([82, 83, 0, 6]), requester_ip, message_type: mt, read_only };
+        let m = VMessage { transaction_id: tid, version: if self.legacy { None } else { Some([82, 83, 0, 6]) }, requester_ip, message_type: mt, read_only };
         if let Ok(b) = encode(&m) {
             self.send_raw(to, &b);
         }
